@@ -627,6 +627,15 @@ def spawn_layer_in_subprocess(result, script_parts, options, features,
             next_err = next(erriter)
             errors.append((next_err.strip().decode(), None))
 
+    except Exception as e:
+        # The subprocess could not be started or its report was cut short
+        # or unreadable.  This runs in a thread: an escaping exception would
+        # only end the thread, and the layer would silently count as passed.
+        errors.append(("subprocess for %s" % layer_name, None))
+        output.error_with_banner(
+            "Could not communicate with subprocess!\n%s: %s"
+            % (type(e).__name__, e))
+
     finally:
         result.done = True
         if child is not None:
